@@ -2,6 +2,7 @@ pub mod c02;
 pub mod c03;
 pub mod c04;
 pub mod c14;
+pub mod c17;
 pub mod life;
 
 use crate::explore::Harness;
@@ -26,6 +27,7 @@ pub fn plan(prop: &str, tier: Tier, seed: u64) -> Option<Plan> {
     "C03" => Some(c03::plan(tier, seed)),
     "C04" => Some(c04::plan(tier, seed)),
     "C14" => Some(c14::plan(tier, seed)),
+    "C17" => Some(c17::plan(tier, seed)),
     "C01" => Some(life::plan("C01", tier, seed)),
     "C05" => Some(life::plan("C05", tier, seed)),
     "C06" => Some(life::plan("C06", tier, seed)),
@@ -41,6 +43,7 @@ pub fn by_name(name: &str) -> Option<Arc<dyn Harness>> {
     "C03" => c03::by_name(name),
     "C04" => c04::by_name(name),
     "C14" => c14::by_name(name),
+    "C17" => c17::by_name(name),
     "C01" | "C05" | "C06" => life::by_name(name),
     _ => None,
   }
